@@ -115,6 +115,19 @@ def run_extra(ctx):
             k = next((i for i in range(min(len(got), len(exp))) if got[i] != exp[i]), min(len(got), len(exp)))
             viol("e2e-src-line-groups", pattern=pat, file=path, first_diff_line=k,
                  got=got[k].hex() if k < len(got) else None, want=exp[k].hex() if k < len(exp) else None)
+    # {name}: unnamed groups before / around the named ones, an optional group that does not participate, a repeated name
+    npath = os.path.join(work, "e2e_named.txt")
+    with open(npath, "w") as f:
+        f.write("GET /x 200\nPOST /a/b 404\nid=42;\nxyz\n")
+    for pat, expr, want in [
+            (r"(\w+) (?P<path>\S+) (?P<status>\d+)", "{path}|{status}|{1}", b"/x|200|GET\n/a/b|404|POST\n"),
+            (r"(x)?(id=(?P<id>\d+));", "{id}|{2}|[{1}]", b"42|id=42|[]\n"),
+            (r"^(?P<a>\w)(\w)(?P<a>\w)$", "{a}{2}", b"zy\n")]:
+        p = subprocess.run([exe, "--nocolor", "filter", "-m", pat, "-e", expr, "--workers", "1", "--readers", "1", npath],
+                           stdout=subprocess.PIPE, stderr=subprocess.PIPE, timeout=120)
+        runs += 1
+        if p.stdout != want:
+            viol("e2e-named-group", pattern=pat, expression=expr, got=p.stdout.decode(errors="replace"), want=want.decode())
     return {"runs": runs, "violations": violations,
             "assumptions": ["e2e step: one reader and one worker (input order is then a theorem, fifo_order); index lists of the "
                             "real matchers are taken from the harness binary (op idx)"]}
